@@ -4,6 +4,7 @@ from . import r_rank as RR
 from . import r_token as RK
 from . import r_lang as RL
 from . import C20 as RC20
+from . import r_bridge as RB
 from .common import info
 
 
@@ -14,12 +15,13 @@ def run(ctx):
     RR.position_mapping(ctx, "R02.b")
     RC20.forwarders(ctx, "R02.b")
     RH.marker_provenance(ctx, "R02.d")
+    RB.title_framing(ctx, "R02.e")
     RK.normalize_assigns_together(ctx, "R02.f")
     RL.reductions_never_shrink(ctx, "R02.f")
     RL.table_rules(ctx, "R11.a", "R11.b", "R11.c", "R11.d", "R11.g")
     return info("R02.a: every return path of the title builder returns the one String that passed retain(ch != '\\0') after its "
                 "last write; R02.c: the copied slices of hit.title.source tile [0, len) on every path; R09.a: markers are confined to "
                 "left/slice/right triples; R02.b: id provenance record_id -> Record.id -> Hit.id -> SearchResult.id of the same hit, "
-                "positions map to self.records[ix]; R02.d: marker pair provenance; R02.f: normalize pairs source/chars correctly "
+                "positions map to self.records[ix]; R02.d: marker pair provenance; R02.e: the WASM bridge frames every title with a trailing NUL and the JS wrapper splits on NUL; R02.f: normalize pairs source/chars correctly "
                 "and padding is len(norm)-len(orig); composition tables equal Unicode NFC (R11.a). Composition behaviour of "
                 "arbitrary Unicode is not decided beyond the tables.")
